@@ -19,10 +19,14 @@ population) are about:
 
 Hypothesis of the third theorem: `s.strata.Nodup`.  The source initialises `stratum_target_indices` with
 `{s: [] for s in self.strata}`, a dict, which collapses duplicate strata; the hand model uses `List.map`, one entry
-per list element.  The hypothesis is a fact about every `Stratification` the API can build (`Build.mkStrat` /
-`_validate_strata` reject duplicate strata), and it is the WEAKEST hypothesis under which the statement holds:
+per list element.  It is the WEAKEST hypothesis under which the statement holds, and no other is needed:
 `stratify_compartments_eq_iff` proves that the equation holds if and only if `s.strata.Nodup` (for every `comps`,
-including the empty list).  No other hypothesis is needed.
+including the empty list; the last two examples show the two sides on `strata = ["a", "a"]`).
+NOTE: the hypothesis is NOT a consequence of the API's validation.  Neither `Stratification.__init__`
+(`self.strata = list(map(str, strata))`) nor `Build.mkStrat` rejects repeated strata, so on such an input
+`Run.stratIndexArrays` and the source's `stratum_target_indices` are different data (the model's list has one entry
+per occurrence, each receiving every index; the source's dict has one).  Users of the theorem have to carry
+`s.strata.Nodup` as an assumption on the input.
 
 Proof of the third theorem: a simulation between the two folds.  The generated fold carries
 `(idx, strat_base, pass_base, pass_target, new_comps, stratum_target)`, the model's fold a `StratIdx` (whose `newSize`
